@@ -13,6 +13,7 @@ import (
 	"fmt"
 	"runtime"
 	"sort"
+	"strings"
 	"sync"
 	"sync/atomic"
 	"testing"
@@ -327,9 +328,41 @@ func vfC13Run(c vfC13Case, ctx *vlib.Ctx) *vlib.Failure {
 		time.Sleep(time.Millisecond)
 	}
 	if n := runtime.NumGoroutine(); n > baseline+2 {
-		buf := make([]byte, 1<<17)
+		buf := make([]byte, 1<<19)
 		buf = buf[:runtime.Stack(buf, true)]
-		return vlib.Failf("goroutines-leaked", "%d goroutines after Stop, %d before the case:\n%s", n, baseline, buf)
+		// summary first (the full dump is long): goroutines grouped by state and innermost function
+		groups := map[string]int{}
+		for _, g := range strings.Split(string(buf), "\n\n") {
+			ls := strings.Split(g, "\n")
+			if len(ls) < 2 {
+				continue
+			}
+			st := ls[0]
+			if i := strings.Index(st, "["); i >= 0 {
+				st = st[i:]
+			}
+			fn := ls[1]
+			if i := strings.LastIndex(fn, "("); i > 0 {
+				fn = fn[:i]
+			}
+			groups[st+" "+fn]++
+		}
+		var sum []string
+		for k, v := range groups {
+			sum = append(sum, fmt.Sprintf("%dx %s", v, k))
+		}
+		sort.Strings(sum)
+		listed := 0
+		for _, v := range groups {
+			listed += v
+		}
+		if listed <= baseline+2 {
+			// the goroutines counted a moment ago were on their way out (idle pool workers being purged): the
+			// dump, which is what a leak would have to show up in, has no more than the baseline
+			ctx.Label("goroutines-exiting-at-deadline")
+		} else {
+			return vlib.Failf("goroutines-leaked", "%d goroutines after Stop (%d in the dump), %d before the case: %s\n%s", n, listed, baseline, strings.Join(sum, "; "), buf)
+		}
 	}
 	ctx.LabelN("callers", len(c.Callers))
 	if flood {
